@@ -8,6 +8,9 @@
 //!  A4  views are built only through the repo's constructors (`slice`, `reversed`, `repeated`,
 //!      `extended`, `range_exclusive`), never by filling view structs with arbitrary fields.
 use crate::l0;
+// `Vec`/`String` in this file are std's (replay printing); element storage is l0::Vec
+use std::string::String;
+use std::vec::Vec;
 use crate::l1::{self, Views as _};
 use crate::l2::{self, Views as _};
 use crate::prelude::*;
@@ -166,11 +169,12 @@ fn any_range_n(n_max: usize) -> (l0::Out, MRange) {
 fn any_eager() -> (l0::Out, MEager) {
     let n: usize = kani::any();
     kani::assume(n <= 3);
+    let all = [Val::Num(10.into()), Val::Num(11.into()), Val::Num(12.into())];
     let v = match n {
-        0 => vec![],
-        1 => vec![Val::Num(10.into())],
-        2 => vec![Val::Num(10.into()), Val::Num(11.into())],
-        _ => vec![Val::Num(10.into()), Val::Num(11.into()), Val::Num(12.into())],
+        0 => l0::Vec::from_slice(&all[..0]),
+        1 => l0::Vec::from_slice(&all[..1]),
+        2 => l0::Vec::from_slice(&all[..2]),
+        _ => l0::Vec::from_slice(&all[..3]),
     };
     (l0::Out::eager(v), MEager { n })
 }
@@ -343,10 +347,10 @@ view_harnesses!(d1_reverse_range_len, d1_reverse_range_inb, d1_reverse_range_oob
 //@harness name=d1_repeat_range_oob tier=quick timeout=300 unwind=8 desc="repeated(range,k): get/get_lazy/get_cheap at every language-reachable index >= len" bounds="n<=5,k<=3"
 view_harnesses!(d1_repeat_range_len, d1_repeat_range_inb, d1_repeat_range_oob, 8, { let (a, m) = any_range(); let k = any_reps(); (l1::Views::repeated(a, k).expect("small sizes do not overflow"), MRep(m, k)) });
 
-//@harness name=d1_extend_copy_len tier=quick timeout=400 unwind=10 desc="extended(range, eager): copying path below 1000 elements: len/is_empty" bounds="n<=2 + n<=2 (Vec copying with symbolic lengths is the expensive part)"
-//@harness name=d1_extend_copy_inb tier=thorough timeout=3600 unwind=10 desc="extended(range, eager): copying path below 1000 elements: get/get_lazy/get_cheap at every index < len" bounds="n<=2 + n<=2 (Vec copying with symbolic lengths is the expensive part)"
-//@harness name=d1_extend_copy_oob tier=thorough timeout=3600 unwind=10 desc="extended(range, eager): copying path below 1000 elements: get/get_lazy/get_cheap at every language-reachable index >= len" bounds="n<=2 + n<=2"
-view_harnesses!(d1_extend_copy_len, d1_extend_copy_inb, d1_extend_copy_oob, 10, { let (a, ma) = any_range_n(2); let (b, mb) = any_eager(); kani::assume(mb.n <= 2); (l1::Views::extended(a, b), MExt(ma, mb)) });
+//@harness name=d1_extend_copy_len tier=quick timeout=400 unwind=12 desc="extended(range, eager): copying path below 1000 elements: len/is_empty" bounds="n<=5 + n<=3 (element storage and copy buffer are fixed-capacity stand-ins)"
+//@harness name=d1_extend_copy_inb tier=quick timeout=600 unwind=12 desc="extended(range, eager): copying path below 1000 elements: get/get_lazy/get_cheap at every index < len" bounds="n<=5 + n<=3 (element storage and copy buffer are fixed-capacity stand-ins)"
+//@harness name=d1_extend_copy_oob tier=quick timeout=600 unwind=12 desc="extended(range, eager): copying path below 1000 elements: get/get_lazy/get_cheap at every language-reachable index >= len" bounds="n<=5 + n<=3 (element storage and copy buffer are fixed-capacity stand-ins)"
+view_harnesses!(d1_extend_copy_len, d1_extend_copy_inb, d1_extend_copy_oob, 12, { let (a, ma) = any_range(); let (b, mb) = any_eager(); (l1::Views::extended(a, b), MExt(ma, mb)) });
 
 //@harness name=d1_extend_linked_len tier=quick timeout=300 unwind=8 desc="ExtendedArray::new(range, eager): linked representation (used above 1000 elements) driven directly, both parts non-empty: len/is_empty" bounds="n in 1..=5 + 1..=3"
 //@harness name=d1_extend_linked_inb tier=quick timeout=300 unwind=8 desc="ExtendedArray::new(range, eager): linked representation (used above 1000 elements) driven directly, both parts non-empty: get/get_lazy/get_cheap at every index < len" bounds="n in 1..=5 + 1..=3"
@@ -458,3 +462,40 @@ view_get_small!(d2_repeat_of_slice_get, 10, { let (a, m) = any_range_n(3); let k
 //@harness name=d2_reverse_of_repeat_get tier=quick timeout=600 unwind=10 desc="reversed(repeated(range,k)): get at every index 0..=255 (in and out of bounds)" bounds="n<=3, |from|,|to|<=4, step<=3, k<=3"
 view_get_small!(d2_reverse_of_repeat_get, 10, { let (a, m) = any_range_n(3); let k = any_reps(); (l1::Views::repeated(a, k).unwrap().reversed(), MRev(MRep(m, k))) });
 
+
+// ---------------------------------------------------------------------------------------------
+// std.removeAt
+// ---------------------------------------------------------------------------------------------
+/// `[arr[i] for i in 0..len if i != at]` (the documented definition)
+#[derive(Clone, Copy)]
+pub struct MRemoveAt<M>(M, i32);
+impl<M: Model> Model for MRemoveAt<M> {
+    fn len(&self) -> usize {
+        if self.1 >= 0 && (self.1 as usize) < self.0.len() {
+            self.0.len() - 1
+        } else {
+            self.0.len()
+        }
+    }
+    fn at(&self, i: usize) -> i64 {
+        if self.1 >= 0 && i >= self.1 as usize {
+            self.0.at(i + 1)
+        } else {
+            self.0.at(i)
+        }
+    }
+    #[cfg(verif_playback)]
+    fn jsonnet(&self) -> String {
+        format!("std.removeAt({}, {})", self.0.jsonnet(), self.1)
+    }
+}
+//@harness name=remove_at_len tier=thorough optional=1 timeout=7200 unwind=10 desc="std.removeAt(arr, at) = [arr[i] for i != at] for every i32 `at` (negative, in range, beyond the end, i32::MAX): len/is_empty" bounds="n<=3, at in -4..=5 or i32::MIN or i32::MAX"
+//@harness name=remove_at_inb tier=thorough optional=1 timeout=7200 unwind=10 desc="std.removeAt: elements" bounds="n<=3, at in -4..=5 or i32::MIN or i32::MAX"
+//@harness name=remove_at_oob tier=thorough optional=1 timeout=7200 unwind=10 desc="std.removeAt: out-of-bounds reads of the result" bounds="n<=3, at in -4..=5 or i32::MIN or i32::MAX"
+view_harnesses!(remove_at_len, remove_at_inb, remove_at_oob, 10, {
+    let (a, m) = any_range_n(3);
+    let at: i32 = kani::any();
+    kani::assume((at >= -4 && at <= 5) || at == i32::MAX || at == i32::MIN);
+    let r = crate::remove::builtin_remove_at(a, at);
+    (r.expect("removeAt of an array never fails"), MRemoveAt(m, at))
+});
